@@ -61,6 +61,11 @@ def ms_content_key(kid: bytes, seed: bytes = TEST_KEY_SEED) -> bytes:
     return bytes(a[i] ^ a[i + 16] ^ b[i] ^ b[i + 16] ^ c[i] ^ c[i + 16] for i in range(16))
 
 
+LA_URLS = ["https://lic.test/pr?x={cfgs}", "https://lic.test/a", "https://lic.test/{default_kid}",
+           "https://lic.test/p?a=1&b=2", "https://lic.test/q?x=<y>&z='w'\"v\"", "https://lic.test/{default_kid}?a&b",
+           "https://lic.test/r/{kid}/lit", "https://lic.test/s?t=%26amp%3B", "https://lic.test/ü?☃=1&cfg={cfgs}&end"]
+
+
 def generate(seed: int, tier: str, index: int) -> dict:
     rng = base.rng_for(seed, "gen")
     t0 = simclock.SimClock.parse(rng.choice(mc.T0_CHOICES))
@@ -80,8 +85,7 @@ def generate(seed: int, tier: str, index: int) -> dict:
                 if rng.random() < 0.5:
                     q["playready__version"] = rng.choice(["1.0", "2.0", "3.0", "4.0"])
                 if rng.random() < 0.3:
-                    q["playready__la_url"] = rng.choice(["https://lic.test/pr?x={cfgs}", "https://lic.test/a",
-                                                         "https://lic.test/{default_kid}"])
+                    q["playready__la_url"] = rng.choice(LA_URLS)
                 if rng.random() < 0.3:
                     q["abr"] = "0"
                 if mode == "live" and rng.random() < 0.4:
@@ -336,9 +340,17 @@ class DrmOracle:
                                                   f"{ms_content_key(kid).hex()} for {kid.hex()}; {where}")
         la = q.get("playready__la_url")
         if la and f["la_url"] is not None:
-            head = urllib.parse.unquote_plus(la).split("{")[0]
-            if not f["la_url"].startswith(head):
-                sim.violate("pro-la-url", subj, f"LA_URL {f['la_url']!r}, requested {la!r}; {where}")
+            want = urllib.parse.unquote_plus(la)       # the option is an escaped URL: the server unquotes it again
+            sim.check("c11-la-url")
+            if "{cfgs}" in want:
+                head, tail = want.split("{cfgs}", 1)
+                ok = f["la_url"].startswith(head.replace("{default_kid}", kid.hex())) and \
+                    f["la_url"].endswith(tail.replace("{default_kid}", kid.hex()))
+            else:
+                # {default_kid} is the only other documented field; any other brace is literal text
+                ok = f["la_url"] == want.replace("{default_kid}", kid.hex())
+            if not ok:
+                sim.violate("pro-la-url", subj, f"LA_URL {f['la_url']!r}, requested {want!r}; {where}")
 
     def on_init(self, actor, doc, aset, rep, url, resp) -> None:
         sim = self.sim
